@@ -1,15 +1,20 @@
 #!/bin/bash
-# dev/mutant.sh <seeded-id> <prop> [extra check args]  -- apply /verif/seeded/<id>/patch.diff to /repo, run the
-# property's check (no evidence written), undo the patch straight afterwards, record the outcome.
+# dev/mutant.sh <seeded-id> <prop> [extra check args]  -- apply /verif/seeded/<id>/patch.diff to a SCRATCH COPY of
+# /repo's working tree (never to /repo itself: an interrupted run once left a seeded change behind in /repo, see
+# DESIGN.md section 0.5), run the property's check against that copy (VERIF_REPO; no evidence written), remove the
+# copy, record the outcome.
 id=$1; prop=$2; shift 2
 patch=/verif/seeded/$id/patch.diff
 [ -f $patch ] || { echo "no $patch"; exit 2; }
-if [ -n "$(git -C /repo status --porcelain)" ]; then echo "/repo is not clean"; exit 2; fi
-git -C /repo apply $patch || exit 2
+copy=/var/tmp/ffuzzy-mutant.$$
+trap 'rm -rf "$copy"' EXIT INT TERM
+mkdir -p $copy
+rsync -a --exclude /target --exclude .git /repo/ $copy/ || exit 2
+( cd $copy && git init -q . 2>/dev/null; git -C $copy apply $patch ) || { echo "patch does not apply"; exit 2; }
+rm -rf $copy/.git
 out=/verif/seeded/$id/check_$prop.txt
-( cd /verif && VERIF_MEM_GB=${VERIF_MEM_GB:-52} ./check $prop --no-evidence "$@" ) > $out 2>&1
+( cd /verif && VERIF_REPO=$copy VERIF_MEM_GB=${VERIF_MEM_GB:-52} ./check $prop --no-evidence "$@" ) > $out 2>&1
 rc=$?
-git -C /repo checkout -- .
 echo "exit=$rc" >> $out
 for r in $(grep -o "replay=[^ ]*" $out | cut -d= -f2 | sort -u); do [ -f "$r" ] && cp "$r" /verif/seeded/$id/replay_$(basename $r); done
 grep -h "VIOLATION\|tier=\|KNOWN\|INCONCL" $out | cut -c1-200
